@@ -138,7 +138,172 @@ def run(F, R, tier):
         R.check(len(a["variants"]) == 3, "R05-prec", "ast::logical_expr::LogicalOp",
                 "3 logical operators => precedence recursion depth <= 3", str(len(a["variants"])))
     rule_span(E, R)
-    R.not_decided += ["char-boundary safety of the computed str slices in the lexers",
+    rule_slice(E, R)
+    R.not_decided += ["the arithmetic behind three reviewed slice bounds in ParseError::new (frozen exceptions of R05-slice)",
                       "progress of every lexer loop (termination)", "arithmetic inside ParseError::new / Display",
                       "stack size in bytes"]
     R.assumptions += ["calls through dyn FunctionDefinition (context, check_param, return_type, arg_count) go to user code and are not followed"]
+
+
+# ----------------------------------------------------------------------------------------------
+# R05-slice: every `str` slice bound is a char boundary by construction (slicing off a boundary panics)
+
+SLICE_EXCEPTIONS = {
+    # (function, local used as bound): reason — reviewed by reading; the computation itself is not re-derived
+    ("ast::parse::ParseError::new", "span_start"): "byte offset of `span` inside `input` (pointer difference; asserted to lie inside the input)",
+    ("ast::parse::ParseError::new", "line_start"): "position after a '\\n' found by match_indices (1-byte char)",
+    ("ast::parse::ParseError::new", "line_end"): "position of '\\n' returned by str::find",
+}
+
+
+def _is_str_ty(t):
+    t = norm(t or "")
+    return t in ("&str", "str", "&mut str", "alloc::string::String", "&alloc::string::String")
+
+
+def _ascii_guard(body):
+    """the function inspects leading bytes against ASCII byte literals (`as_bytes().first()/get(n)` matched or compared
+    with b'x' < 0x80): a literal offset past those bytes is a char boundary"""
+    for c in exprs(body, "MethodCall"):
+        if c["m"] == "as_bytes":
+            return True
+    return False
+
+
+def _ascii_byte_lits(n):
+    out = []
+    for x in walk(n):
+        lit = None
+        if x.get("k") == "Lit" and x["lit"].get("t") == "byte":
+            lit = x["lit"]["v"]
+        if x.get("k") == "PELit" and x["lit"].get("t") == "byte":
+            lit = x["lit"]["v"]
+        if lit is not None:
+            out.append(lit)
+    return out
+
+
+def _find_pattern_of(body, nm):
+    """the literal pattern of the `find(..)` call whose result defines local nm (None if not a find result)"""
+    cands = []
+    out = []
+    for n in walk(body):
+        if n.get("k") == "LetExpr" and nm in pat_bindings(n["pat"]):
+            cands.append(strip(n["init"]))
+        if n.get("k") == "SLet" and nm in pat_bindings(n["pat"]) and "init" in n:
+            cands.append(strip(n["init"]))
+    for src in cands:
+        for c in exprs(src, "MethodCall"):
+            if c["m"] in ("find", "rfind") and c.get("args"):
+                v = lit_value(c["args"][0])
+                if isinstance(v, str):
+                    out.append(v)
+    return out
+
+
+def _bound_safe(E, hb, e, depth=0):
+    """(ok, why) for a slice bound expression"""
+    e = strip(e)
+    k = e.get("k")
+    body = hb["body"]
+    if depth > 6:
+        return False, "too deep"
+    if k == "Lit":
+        v = e["lit"].get("v")
+        if v == 0:
+            return True, "0"
+        lits = _ascii_byte_lits(body)
+        if _ascii_guard(body) and lits and all(b < 0x80 for b in lits):
+            return True, "literal %s after an ASCII leading-byte test" % v
+        return False, "constant offset %s without an ASCII leading-byte test: a multi-byte character there makes the slice panic" % v
+    if k == "MethodCall":
+        if e["m"] == "len_utf8":
+            return True, "len_utf8()"
+        if e["m"] == "len" and _is_str_ty(e["recv"].get("ty")) or (e["m"] == "len" and "str" in norm(e["recv"].get("ty", ""))):
+            return True, "len() of a string"
+        if e["m"] in ("unwrap_or", "unwrap_or_else", "unwrap_or_default") and strip(e["recv"]).get("m") in ("find", "rfind"):
+            return True, "position returned by find()"
+        return False, "result of %s()" % e["m"]
+    if k == "Binary" and e["op"] == "Add" and isinstance(lit_value(e["r"]), int) and local_name(e["l"]):
+        # `pos + k` right after a k-byte pattern found by find(): still a boundary
+        pats = _find_pattern_of(body, local_name(e["l"]))
+        for pat in pats:
+            if len(pat.encode()) == lit_value(e["r"]):
+                return True, "position returned by find(%r) + its byte length" % pat
+    if k == "Binary" and e["op"] in ("Add", "Sub"):
+        a, wa = _bound_safe(E, hb, e["l"], depth + 1)
+        b, wb = _bound_safe(E, hb, e["r"], depth + 1)
+        return (a and b), "%s %s %s" % (wa, e["op"], wb)
+    if k == "Binary" and e["op"] == "Mul":
+        a, wa = _bound_safe(E, hb, e["l"], depth + 1) if lit_value(e["l"]) is None else (True, str(lit_value(e["l"])))
+        b, wb = _bound_safe(E, hb, e["r"], depth + 1) if lit_value(e["r"]) is None else (True, str(lit_value(e["r"])))
+        return (a and b), "%s * %s" % (wa, wb)
+    nm = local_name(e)
+    if nm:
+        fn = norm(hb["path"])
+        if (fn, nm) in SLICE_EXCEPTIONS:
+            return True, "reviewed: " + SLICE_EXCEPTIONS[(fn, nm)]
+        # definition of the local
+        for st in exprs(body, "SLet"):
+            if nm in pat_bindings(st["pat"]) and "init" in st and st["pat"].get("k") == "PBinding":
+                ini = strip(st["init"])
+                # count of leading ASCII chars
+                if ini.get("k") == "MethodCall" and ini["m"] == "count":
+                    root, ch = chain(ini)
+                    ms = [x["m"] for x in ch]
+                    if ms == ["chars", "take_while", "count"]:
+                        clo = closure_of(ch[1]["args"][0])
+                        lits = [x["lit"].get("v") for x in exprs(clo["body"], "Lit")] if clo else []
+                        if lits and all(isinstance(v, str) and len(v) == 1 and ord(v) < 0x80 for v in lits):
+                            return True, "count of leading ASCII characters"
+                return _bound_safe(E, hb, ini, depth + 1)
+        # bound by a pattern: Some(x) from find(), (i, c) from char_indices()
+        for n in walk(body):
+            if n.get("k") == "LetExpr" and nm in pat_bindings(n["pat"]):
+                src = strip(n["init"])
+                if src.get("k") == "MethodCall" and src["m"] in ("find", "rfind"):
+                    return True, "position returned by find()"
+        for st in exprs(body, "SLet"):
+            if nm in pat_bindings(st["pat"]) and "init" in st:
+                src = strip(st["init"])
+                for c in exprs(src, "MethodCall"):
+                    if c["m"] in ("char_indices", "match_indices"):
+                        return True, "offset produced by %s()" % c["m"]
+                inner = src
+                # `iter.next().ok_or(..)?` on a char_indices iterator defined earlier
+                for c in exprs(src, "MethodCall"):
+                    if c["m"] == "next":
+                        it = local_name(chain(c)[0])
+                        for st2 in exprs(body, "SLet"):
+                            if it in pat_bindings(st2["pat"]) and any(x["m"] == "char_indices" for x in exprs(st2.get("init", {}), "MethodCall")):
+                                return True, "offset produced by char_indices()"
+        return False, "local `%s` of unknown origin" % nm
+    return False, "expression %s" % k
+
+
+def rule_slice(E, R):
+    rule = "R05-slice"
+    n = 0
+    for hb in E.hir_list:
+        if "body" not in hb:
+            continue
+        fn = norm(hb["path"])
+        if "::tests::" in fn:
+            continue
+        for ix in exprs(hb["body"], "Index"):
+            bt = norm(ix["e"].get("ty", "") + " " + ix["e"].get("aty", ""))
+            if not (bt.startswith("&str") or bt.startswith("str") or " &str" in bt or bt.startswith("&mut str")):
+                continue
+            idx = strip(ix["idx"])
+            if idx.get("k") != "Struct":
+                continue
+            n += 1
+            for f in idx.get("fields", []):
+                ok, why = _bound_safe(E, hb, f["e"])
+                label = "str slice bound `%s`" % f["name"]
+                if ok:
+                    R.ok(rule, fn, label + " is a char boundary by construction", why, ix["sp"])
+                else:
+                    R.violation(rule, fn, label + " is not known to be a char boundary", why, ix["sp"])
+    R.floor(rule, "str slicing sites", n, 15)
+    return n
